@@ -179,7 +179,14 @@ def match_finding(findings, prop, verdict):
             continue
         if prop not in f.get("properties", [f.get("property")]):
             continue
-        sig = f.get("signature", {})
+        for sig in ([f["signature"]] if "signature" in f else []) + list(f.get("signatures", [])):
+            if _sig_matches(sig, verdict):
+                return f
+    return None
+
+
+def _sig_matches(sig, verdict):
+    if True:
         ok = True
         for k, want in sig.items():
             have = verdict.get(k)
@@ -203,9 +210,7 @@ def match_finding(findings, prop, verdict):
                 ok = False
             if not ok:
                 break
-        if ok:
-            return f
-    return None
+        return ok
 
 
 class Report:
@@ -306,78 +311,79 @@ def chunks(seq, n):
 
 # ------------------------------------------------------------------ process isolation
 def isolated_map(worker_fn, items, nproc, wd, tag, item_timeout=120):
-    """Run worker_fn(item, progress) for every item in forked children that survive nothing:
-    native code under test may abort the interpreter (GLPK assertions) or hang.  Children append
-    JSON lines to a private file; when a child dies or exceeds item_timeout for one item, the item
-    in flight gets the result {"crash": <signal or "timeout">, "progress": <last progress value>}
-    and the remaining items are handed to a fresh child.  Returns results in item order."""
+    """Run worker_fn(item, progress) for every item, EACH IN ITS OWN FORKED PROCESS (nproc at a time):
+    native code under test may abort the interpreter (GLPK assertions) or hang, and module-level state
+    polluted by one case must not mask the same defect in the next one.  An item whose process dies or
+    exceeds item_timeout gets the result {"crash": "signal<N>" | "timeout", "progress": <last value
+    passed to progress()>}.  Returns results in item order."""
     import multiprocessing as mp
     import signal
     ctx = mp.get_context("fork")
     results = [None] * len(items)
-    todo = [list(range(k, len(items), nproc)) for k in range(nproc)]
-    todo = [t for t in todo if t]
-    gen = 0
+    lanes = [list(range(k, len(items), nproc)) for k in range(nproc)]
+    lanes = [t for t in lanes if t]
 
-    def child(idxs, path):
+    def lane(idxs, path):
         import logging
         logging.disable(logging.CRITICAL)
         with open(path, "w") as fh:
-            def progress(v):
-                fh.write(json.dumps({"p": v}) + "\n")
-                fh.flush()
             for i in idxs:
-                fh.write(json.dumps({"start": i}) + "\n")
-                fh.flush()
-                signal.alarm(item_timeout)
-                r = worker_fn(items[i], progress)
-                signal.alarm(0)
-                fh.write(json.dumps({"done": i, "r": r}) + "\n")
+                ppath = path + ".p"
+                pid = os.fork()
+                if pid == 0:
+                    code = 0
+                    try:
+                        with open(ppath, "w") as pf:
+                            def progress(v):
+                                pf.seek(0)
+                                pf.write("%s\n" % json.dumps(v))
+                                pf.truncate()
+                                pf.flush()
+                            signal.alarm(item_timeout)
+                            r = worker_fn(items[i], progress)
+                            signal.alarm(0)
+                        with open(ppath + ".r", "w") as rf:
+                            json.dump(r, rf)
+                    except BaseException:
+                        import traceback
+                        traceback.print_exc()
+                        code = 1
+                    os._exit(code)
+                _, status = os.waitpid(pid, 0)
+                if status == 0 and os.path.exists(ppath + ".r"):
+                    with open(ppath + ".r") as rf:
+                        fh.write(json.dumps({"done": i, "r": json.load(rf)}) + "\n")
+                    os.unlink(ppath + ".r")
+                else:
+                    prog = None
+                    try:
+                        with open(ppath) as pf:
+                            prog = json.loads(pf.readline() or "null")
+                    except (OSError, ValueError):
+                        pass
+                    sig = status & 0x7f
+                    what = "timeout" if sig == 14 else ("signal%d" % sig if sig else "exit%d" % (status >> 8))
+                    fh.write(json.dumps({"done": i, "r": {"crash": what, "progress": prog}}) + "\n")
                 fh.flush()
         os._exit(0)
 
-    while todo:
-        procs = []
-        for idxs in todo:
-            gen += 1
-            path = os.path.join(wd, "iso_%s_%d.jsonl" % (tag, gen))
-            p = ctx.Process(target=child, args=(idxs, path))
-            p.start()
-            procs.append((p, idxs, path))
-        todo = []
-        for p, idxs, path in procs:
-            p.join()
-            started, prog, done = None, None, set()
+    procs = []
+    for k, idxs in enumerate(lanes):
+        path = os.path.join(wd, "iso_%s_%d.jsonl" % (tag, k))
+        p = ctx.Process(target=lane, args=(idxs, path))
+        p.start()
+        procs.append((p, path))
+    for p, path in procs:
+        p.join()
+        if p.exitcode != 0:
+            raise Machinery("isolation lane died (exit %s)" % p.exitcode)
+        with open(path) as fh:
+            for line in fh:
+                d = json.loads(line)
+                results[d["done"]] = d["r"]
+        for f in (path, path + ".p"):
             try:
-                with open(path) as fh:
-                    for line in fh:
-                        try:
-                            d = json.loads(line)
-                        except ValueError:
-                            continue
-                        if "start" in d:
-                            started, prog = d["start"], None
-                        elif "p" in d:
-                            prog = d["p"]
-                        elif "done" in d:
-                            results[d["done"]] = d["r"]
-                            done.add(d["done"])
-                            started = None
+                os.unlink(f)
             except OSError:
                 pass
-            try:
-                os.unlink(path)
-            except OSError:
-                pass
-            rest = [i for i in idxs if i not in done]
-            if p.exitcode != 0 and rest:
-                if started is None:
-                    started = rest[0]
-                sig = -p.exitcode if p.exitcode < 0 else p.exitcode
-                results[started] = {"crash": "timeout" if sig == 14 else "signal%d" % sig, "progress": prog}
-                rest = [i for i in rest if i != started]
-            elif rest:
-                raise Machinery("isolated worker exited 0 without finishing its items")
-            if rest:
-                todo.append(rest)
     return results
